@@ -114,6 +114,7 @@ class Scheduler:
         self.p_stall = 0.0  # fault: a task is descheduled for 1-100 virtual ms at a scheduling point (slow / stalled thread)
         self.stalls = 0
         self.stall_locks = {}  # lock label -> (probability, durations): targeted stall right before acquiring that lock
+        self.stall_after_locks = {}  # lock label -> (probability, durations): targeted stall right after releasing it
 
     # ------------------------------------------------------------------ bookkeeping
     def reseed(self, *key):
@@ -313,6 +314,11 @@ class Scheduler:
     def sleep(self, sec):
         self.block(object(), sec, 'sleep', f'{sec:.6g}')
 
+    def stall_after(self, lock, p, durations=(0.002, 0.01)):
+        """fault placement: a task that has just released <lock> is descheduled with probability p (the window of
+        'read under the lock, use after it was released')"""
+        self.stall_after_locks[lock.label] = (p, tuple(durations))
+
     def stall_before(self, lock, p, durations=(0.002, 0.01)):
         """fault placement: a task that is about to acquire <lock> is descheduled first with probability p (the classic
         window of check-then-lock races)"""
@@ -413,6 +419,11 @@ class SimLock:
         self._owner = None
         s.wake(self)
         s.yield_point('rel', self.label)
+        if s.stall_after_locks and self.label in s.stall_after_locks and not s.current.nopreempt and len(s.tasks) > 1:
+            p, durs = s.stall_after_locks[self.label]
+            if s.rng.random() < p:
+                s.stalls += 1
+                s.block(object(), s.rng.choice(durs), 'stall', self.label)
 
     def locked(self):
         if self._real is not None and SCHED is None:
